@@ -16,9 +16,9 @@
    The FULL property ("the same program always gives the same value, output and error text")
    is FALSE of the code as it is: see the _refuted theorems, each tied to a known finding. *)
 From Coq Require Import String List Bool ZArith Permutation Sorted.
-Require Import ZV.Model.MapWalk.
+Require Import ZV.Model.MapWalk ZV.Model.MapWalkKeys.
 Require Import ZV.Generated.Census.
-Require Import ZV.Proofs.MapWalkProofs.
+Require Import ZV.Proofs.MapWalkProofs ZV.Proofs.MapWalkKeysProofs.
 Import ListNotations.
 
 (* ---- class SortedAfter ---- *)
@@ -162,6 +162,154 @@ Theorem stateful_sorted_walk_refuted :
 Proof. exact stateful_sorted_walk_refuted_lemma. Qed.
 Print Assumptions stateful_sorted_walk_refuted.
 
+
+(* ==================================================================================== *)
+(* Model/MapWalkKeys.v: the comparators, sorts and interning of the real code, extracted and run
+   against the real interpreter on every check (harness/cmd/c20 corr.go, ocaml/c20/run.ml).   *)
+
+(* ---- Go's string order is a strict total order ---- *)
+Theorem go_string_order_total :
+  (forall a, str_ltb a a = false)
+  /\ (forall a b c, str_ltb a b = true -> str_ltb b c = true -> str_ltb a c = true)
+  /\ (forall a b, str_ltb a b = false -> str_ltb b a = false -> a = b).
+Proof. exact (conj str_ltb_irrefl (conj str_ltb_trans str_ltb_tri)). Qed.
+Print Assumptions go_string_order_total.
+
+(* sort.Strings after a walk: NO side condition, all lists (duplicates included) *)
+Theorem sort_strings_indep :
+  forall l1 l2 : list gostr, Permutation l1 l2 -> sort_strings l1 = sort_strings l2.
+Proof. exact sort_strings_indep_lemma. Qed.
+Print Assumptions sort_strings_indep.
+
+(* the model's insertion sort stands for ANY correct sort (sort.Sort is an unstable pdqsort) *)
+Theorem any_string_sort_is_the_model :
+  forall sort : list gostr -> list gostr,
+    (forall l, Permutation (sort l) l) ->
+    (forall l, StronglySorted (fun a b => str_ltb b a = false) (sort l)) ->
+    forall l, sort l = sort_strings l.
+Proof. exact any_string_sort_is_the_model_lemma. Qed.
+Print Assumptions any_string_sort_is_the_model.
+
+Theorem sort_strings_spec : forall l,
+  Permutation (sort_strings l) l /\ StronglySorted (fun a b => str_ltb b a = false) (sort_strings l).
+Proof. exact sort_strings_spec_lemma. Qed.
+Print Assumptions sort_strings_spec.
+
+(* jsonmsgp.go:makeSortedSlicesFromMap with KiSlice.Less *)
+Theorem sorted_slices_indep :
+  forall V (o1 o2 : list (gostr * V)), Permutation o1 o2 -> NoDup (map fst o1) -> sorted_slices o1 = sorted_slices o2.
+Proof. exact sorted_slices_indep_lemma. Qed.
+Print Assumptions sorted_slices_indep.
+
+Theorem any_sort_gives_sorted_slices :
+  forall V (sort : list (gostr * V) -> list (gostr * V)),
+    (forall l, Permutation (sort l) l) ->
+    (forall l, StronglySorted (fun a b => key_less b a = false) (sort l)) ->
+    forall o, NoDup (map fst o) -> sort o = sorted_slices o.
+Proof. exact any_sort_gives_sorted_slices_lemma. Qed.
+Print Assumptions any_sort_gives_sorted_slices.
+
+(* comparator census: a comparator that folds the key is order-independent exactly as far as the
+   fold keeps the present keys apart; ASCII case folding does not *)
+Theorem folded_slices_indep :
+  forall V (fold : gostr -> gostr) (o1 o2 : list (gostr * V)),
+    Permutation o1 o2 -> NoDup (map fst o1) ->
+    (forall a b, In a o1 -> In b o1 -> fold (fst a) = fold (fst b) -> fst a = fst b) ->
+    folded_slices fold o1 = folded_slices fold o2.
+Proof. exact folded_slices_indep_lemma. Qed.
+Print Assumptions folded_slices_indep.
+
+Theorem case_folding_comparator_refuted :
+  exists o1 o2 : list (gostr * Z), Permutation o1 o2 /\ NoDup (map fst o1) /\
+    folded_slices ascii_lower o1 <> folded_slices ascii_lower o2.
+Proof. exact case_folding_comparator_refuted_lemma. Qed.
+Print Assumptions case_folding_comparator_refuted.
+
+(* ---- environment.go:NewZlispWithFuncs: symbol numbers ---- *)
+Theorem new_zlisp_symtab_indep :
+  forall V (reserved : list gostr) (o1 o2 : list (gostr * V)),
+    Permutation o1 o2 -> new_zlisp_symtab reserved o1 = new_zlisp_symtab reserved o2.
+Proof. exact new_zlisp_symtab_indep_lemma. Qed.
+Print Assumptions new_zlisp_symtab_indep.
+
+(* the fuel of MakeSymbol's skip loop never runs out *)
+Theorem new_zlisp_symtab_total :
+  forall V (reserved : list gostr) (o : list (gostr * V)), exists t, new_zlisp_symtab reserved o = Some t.
+Proof. exact new_zlisp_symtab_total_lemma. Qed.
+Print Assumptions new_zlisp_symtab_total.
+
+(* refinement to a specification that mentions no order: null = 1, nil = 2, builtin f = 3 + number
+   of builtin names smaller than f (domain: no builtin is itself called null or nil) *)
+Theorem builtin_symnum_refines_rank :
+  forall V (reserved : list gostr) (o : list (gostr * V)),
+    NoDup (map fst o) -> ~ In s_null (map fst o) -> ~ In s_nil (map fst o) ->
+    forall f, In f (map fst o) ->
+      symnums [f] (new_zlisp_symtab reserved o) = [Some (spec_builtin_symnum (map fst o) f)].
+Proof. exact builtin_symnum_refines_rank_lemma. Qed.
+Print Assumptions builtin_symnum_refines_rank.
+
+Theorem new_zlisp_symtab_unsorted_refuted :
+  exists (o1 o2 : list (gostr * Z)) (q : gostr), Permutation o1 o2 /\ NoDup (map fst o1) /\
+    symnums [q] (new_zlisp_symtab_unsorted [] o1) <> symnums [q] (new_zlisp_symtab_unsorted [] o2).
+Proof. exact new_zlisp_symtab_unsorted_refuted_lemma. Qed.
+Print Assumptions new_zlisp_symtab_unsorted_refuted.
+
+(* ---- maps that are only indexed (check.go:submittedByName) ---- *)
+Theorem assoc_lookup_indep :
+  forall V k (o1 o2 : list (gostr * V)), Permutation o1 o2 -> NoDup (map fst o1) -> assoc_lookup k o1 = assoc_lookup k o2.
+Proof. exact assoc_lookup_indep_lemma. Qed.
+Print Assumptions assoc_lookup_indep.
+
+Theorem named_args_final_indep :
+  forall V declared (s1 s2 : list (gostr * V)),
+    Permutation s1 s2 -> NoDup (map fst s1) -> named_args_final declared s1 = named_args_final declared s2.
+Proof. exact named_args_final_indep_lemma. Qed.
+Print Assumptions named_args_final_indep.
+
+(* ---- first offender: early exit from a walk ---- *)
+Theorem first_offender_sorted_indep :
+  forall V (bad : gostr * V -> bool) (o1 o2 : list (gostr * V)),
+    Permutation o1 o2 -> NoDup (map fst o1) -> first_offender_sorted bad o1 = first_offender_sorted bad o2.
+Proof. exact first_offender_sorted_indep_lemma. Qed.
+Print Assumptions first_offender_sorted_indep.
+
+Theorem first_offender_walk_unique_indep :
+  forall V (bad : gostr * V -> bool) (o1 o2 : list (gostr * V)),
+    Permutation o1 o2 -> (forall a b, In a o1 -> In b o1 -> bad a = true -> bad b = true -> a = b) ->
+    first_offender_walk bad o1 = first_offender_walk bad o2.
+Proof. exact first_offender_walk_unique_indep_lemma. Qed.
+Print Assumptions first_offender_walk_unique_indep.
+
+Theorem first_offender_walk_refuted :
+  exists (bad : gostr * Z -> bool) (o1 o2 : list (gostr * Z)), Permutation o1 o2 /\ NoDup (map fst o1) /\
+    first_offender_walk bad o1 <> first_offender_walk bad o2.
+Proof. exact first_offender_walk_refuted_lemma. Qed.
+Print Assumptions first_offender_walk_refuted.
+
+(* ---- package-level variables written during construction: ALL process histories ---- *)
+Theorem store_always_history_indep :
+  forall K G (val : K -> G) (h : list K) (k : K), after_history (store_always val) h k = val k.
+Proof. exact store_always_history_indep_lemma. Qed.
+Print Assumptions store_always_history_indep.
+
+Theorem store_if_unset_history :
+  forall K G (val : K -> G) (h : list K) (k : K),
+    after_history (store_if_unset val) h k = match h with [] => val k | k0 :: _ => val k0 end.
+Proof. exact store_if_unset_history_lemma. Qed.
+Print Assumptions store_if_unset_history.
+
+Theorem store_if_unset_const_indep :
+  forall K G (val : K -> G), (forall k1 k2, val k1 = val k2) ->
+    forall h k, after_history (store_if_unset val) h k = val k.
+Proof. exact store_if_unset_const_indep_lemma. Qed.
+Print Assumptions store_if_unset_const_indep.
+
+Theorem store_if_unset_refuted :
+  exists (val : bool -> Z) (h : list bool) (k : bool),
+    after_history (store_if_unset val) h k <> after_history (store_if_unset val) [] k.
+Proof. exact store_if_unset_refuted_lemma. Qed.
+Print Assumptions store_if_unset_refuted.
+
 (* ---- the tie: every walk of the CURRENT source is covered ---- *)
 Theorem census_covered : forallb site_ok generated_census = true.
 Proof. exact census_covered_lemma. Qed.
@@ -199,3 +347,21 @@ Proof. vm_compute. reflexivity. Qed.
 Example a_sorted_walk_with_stateful_body_is_rejected :
   site_ok (mkSite "scopes.go" "Scope.ShowNew" 0 "scop.Map" SortedAfter false ["SexpString"]) = false.
 Proof. vm_compute. reflexivity. Qed.
+Example go_string_order_examples :
+  str_ltb [73; 68]%Z [105; 100]%Z = true (* "ID" < "id" *) /\ str_ltb [97]%Z [97; 0]%Z = true (* prefix *)
+  /\ str_ltb [195; 169]%Z [122]%Z = false (* "é" (0xC3 0xA9) > "z": bytes, not code points folded *).
+Proof. vm_compute. repeat split; reflexivity. Qed.
+Example sort_strings_example :
+  sort_strings [[105; 100]; [73; 68]; [73; 100]; []]%Z = [[]; [73; 68]; [73; 100]; [105; 100]]%Z.
+Proof. vm_compute. reflexivity. Qed.
+Example new_zlisp_symtab_example :
+  symnums [[99; 97; 114]; [99; 100; 114]; s_null; s_nil; [113]]%Z
+          (new_zlisp_symtab [[113]; [99; 97; 114]]%Z [([99; 100; 114], 0); ([99; 97; 114], 0)]%Z)
+  = [Some 3; Some 4; Some 1; Some 2; Some 5].
+Proof. vm_compute. reflexivity. Qed.
+Example rank_example : spec_builtin_symnum [[99; 100; 114]; [99; 97; 114]]%Z [99; 100; 114]%Z = 4.
+Proof. vm_compute. reflexivity. Qed.
+Example a_lazily_filled_singleton_is_rejected :
+  global_ok (mkGlobal "pratt.go" "arrayOp" "*InfixOp" ["Zlisp.InitInfixOps (store_conditional_or_dependent)"]) = false
+  /\ global_ok (mkGlobal "pratt.go" "arrayOp" "*InfixOp" ["Zlisp.InitInfixOps (store_always)"]) = true.
+Proof. vm_compute. split; reflexivity. Qed.
